@@ -211,3 +211,68 @@ class RuleProxy:
 
     def sample(self, s):
         return None
+
+
+def flag_provenance(ctx, rule, flag, family=('assert_limits', 'engine_on'), floor=3):
+    """A control flag that is handed down a call chain (`assert_limits`: whether limits are enforced; `engine_on`: whether the
+    engine runs) must reach each callee unchanged: at every call whose callee has a parameter named `flag`, the value passed
+    (a) mentions no other flag of the family (two adjacent bool arguments transposed), and (b) when the caller has the flag
+    itself — a parameter or a field of its self type with that name — derives from it (a constant would silently switch the
+    flag for everything below).  Constants are accepted where the caller has no such flag (what-if evaluations, roots)."""
+    import re as _re
+    from sa.cfg import CFG
+    from sa.terms import walk, show
+    prog = ctx.prog
+    eng = engine(ctx)
+
+    def pnames(b):
+        out = {}
+        for k, v in b.debug.items():
+            m = _re.fullmatch(r'_(\d+)', v)
+            if m and 1 <= int(m.group(1)) <= b.nparams:
+                out.setdefault(int(m.group(1)), k)
+        return out
+    has = {}
+    for b in prog.bodies:
+        if b.kind == 'fn' and not b.test:
+            for n_, nm in pnames(b).items():
+                if nm == flag:
+                    has[b.fid] = n_
+    n = 0
+    for b in prog.bodies:
+        if b.kind != 'fn' or b.test:
+            continue
+        if not any(x.fid in has for bn, t in CFG(b).call_sites() for x in prog.resolve(t.callee)):
+            continue
+        an = analysis_or_fail(ctx, rule, b)
+        if an is None:
+            continue
+        mine = pnames(b)
+        own_param = [n_ for n_, nm in mine.items() if nm == flag]
+        tname = b.fid.split('::')[0].strip('<>').split(' as ')[0]
+        own_field = mine.get(1) == 'self' and any((not td.test) and td.kind == 'struct' and td.field(flag) is not None for td in prog.types.get(tname, []))
+        for c in an.calls:
+            for x in (c.targets or []):
+                if x not in has or len(c.argvals) < has[x]:
+                    continue
+                v = c.argvals[has[x] - 1]
+                mentioned = set()
+                for y in walk(v):
+                    if y[0] == 'pre':
+                        for comp in y[1]:
+                            if comp[0] in ('val', 'obj') and mine.get(comp[1]) in family:
+                                mentioned.add(mine[comp[1]])
+                            if comp[0] == 'f' and comp[1] in family:
+                                mentioned.add(comp[1])
+                n += 1
+                key = '%s -> %s' % (b.fid, x)
+                k2 = sum(1 for r_ in ctx.results if r_.rule == rule and r_.key.startswith(key))
+                if k2:
+                    key += ' #%d' % (k2 + 1)
+                other = mentioned - {flag}
+                ok = not other and (flag in mentioned or not (own_param or own_field))
+                ctx.check(ok, rule, key, '`%s` is handed on unchanged (%s)' % (flag, show(v, an.names)[:60]),
+                          'the value passed for `%s` is %s%s' % (flag, show(v, an.names)[:120],
+                                                               (' — it derives from `%s`' % '`, `'.join(sorted(other))) if other else ' — the caller\'s own flag is not used'),
+                          ctx.where(b, c.span))
+    ctx.floor('call sites handing `%s` on' % flag, n, floor)
